@@ -3,6 +3,7 @@ package c13
 import (
 	"encoding/json"
 	"fmt"
+	"math"
 	"net/http"
 	"os"
 	"path/filepath"
@@ -170,6 +171,10 @@ func gen(r *verifsim.Rng, tier string) (any, hx.Sched) {
 		}
 		m.Short = r.Intn(8) == 0
 		m.Class = r.Intn(4) == 0
+		if r.Intn(10) == 0 {
+			// the ends of the integer range and values near them ("always outermost" / "always innermost")
+			m.Prio = verifsim.Pick(r, []int{math.MaxInt64, math.MinInt64, math.MaxInt64 - 1, math.MinInt64 + 1, 1 << 62, -(1 << 62), 1 << 31, -(1 << 31) - 1})
+		}
 		w.MWs = append(w.MWs, m)
 	}
 	if !many && r.Intn(4) == 0 {
@@ -422,14 +427,14 @@ func script(w *W) string {
 			target = fmt.Sprintf("$g%d", m.Owner)
 		}
 		if m.Class {
-			fmt.Fprintf(&b, "%s->middleware(new Mw%d(), %d);\n", target, i, m.Prio)
+			fmt.Fprintf(&b, "%s->middleware(new Mw%d(), %s);\n", target, i, prioLit(m.Prio))
 			return
 		}
 		fmt.Fprintf(&b, "%s->middleware(function ($request, $response, $next) {\n    __mark(\"enter%d\");\n%s", target, i, seg(fmt.Sprintf("pre%d", i), "$response", false))
 		if !m.Short {
 			fmt.Fprintf(&b, "    $next($request, $response);\n    __mark(\"back%d\");\n", i)
 		}
-		fmt.Fprintf(&b, "%s    __mark(\"exit%d\");\n}, %d);\n", seg(fmt.Sprintf("post%d", i), "$response", false), i, m.Prio)
+		fmt.Fprintf(&b, "%s    __mark(\"exit%d\");\n}, %s);\n", seg(fmt.Sprintf("post%d", i), "$response", false), i, prioLit(m.Prio))
 	}
 	for i, m := range w.MWs {
 		if m.Owner == 0 && !m.Late {
@@ -767,6 +772,13 @@ func fixtureFile() string {
 		os.Rename(tmp, p)
 	})
 	return p
+}
+
+func prioLit(p int) string {
+	if p == math.MinInt64 {
+		return "PHP_INT_MIN"
+	}
+	return fmt.Sprint(p)
 }
 
 func atoi(s string) int {
